@@ -200,6 +200,16 @@ func (f Field) Equals(other Field) bool {
 		return bytes.Equal(f.Interface.([]byte), other.Interface.([]byte))
 	case ArrayMarshalerType, ObjectMarshalerType, InlineMarshalerType, StringerType, ErrorType, ReflectType:
 		return reflect.DeepEqual(f.Interface, other.Interface)
+	case Complex128Type:
+		// Compare bit patterns, as the float field types do (their value is
+		// stored as bits in Integer), so that a NaN component equals itself.
+		a, b := f.Interface.(complex128), other.Interface.(complex128)
+		return math.Float64bits(real(a)) == math.Float64bits(real(b)) &&
+			math.Float64bits(imag(a)) == math.Float64bits(imag(b))
+	case Complex64Type:
+		a, b := f.Interface.(complex64), other.Interface.(complex64)
+		return math.Float32bits(real(a)) == math.Float32bits(real(b)) &&
+			math.Float32bits(imag(a)) == math.Float32bits(imag(b))
 	default:
 		return f == other
 	}
